@@ -31,3 +31,9 @@ M("fdb-abs-step-from-start", "scalar_function.py",
   "            finite_diff_options[\"abs_step\"] = epsilon\n",
   "            finite_diff_options[\"abs_step\"] = epsilon if finite_diff_rel_step is None else finite_diff_rel_step * np.maximum(1.0, np.abs(self.x))\n", ["FDB"])
 M("fdb-method-const", "scalar_function.py", "            finite_diff_options[\"method\"] = grad\n", "            finite_diff_options[\"method\"] = \"2-point\"\n", ["FDB"])
+
+# ---- GETB (round 3)
+M("getb-falsy-bound", "base.py", "    lb, ub = old_bound_to_new(bounds)\n",
+  "    lb = np.array([lo or -np.inf for lo, _ in bounds], dtype=np.float64)\n    ub = np.array([up or np.inf for _, up in bounds], dtype=np.float64)\n", ["GETB"], canary=True)
+Q("getb-explicit-none", "base.py", "    lb, ub = old_bound_to_new(bounds)\n",
+  "    lb = np.array([-np.inf if lo is None else lo for lo, _ in bounds], dtype=np.float64)\n    ub = np.array([np.inf if up is None else up for _, up in bounds], dtype=np.float64)\n", ["GETB"])
